@@ -11,6 +11,12 @@ func dispatchMore(cmd string, args []string) bool {
 	case "termcamp":
 		cmdTermCamp(args)
 		return true
+	case "render":
+		cmdRender(args)
+		return true
+	case "gen2":
+		cmdGen2(args)
+		return true
 	case "campaign":
 		cmdCampaign(args)
 		return true
